@@ -59,7 +59,7 @@ def run_harness(binary, mode, out, seed, tier, infile="", timeout=3000, extra_en
     return p.returncode, p.stdout
 
 
-def tlc(sdir, module, cfg, workers=1, timeout=1800, heap="4g", extra=None, consts=None, depthfirst=False, tag=""):
+def tlc(sdir, module, cfg, workers=1, timeout=1800, heap="4g", extra=None, consts=None, depthfirst=False, tag="", jvm=None):
     """Run TLC on spec/<module>.tla with spec/<cfg> in a scratch copy of the spec directory.
     consts: dict name->TLA+ expression appended to the cfg as CONSTANT definitions (via a generated
     wrapper module is not needed: plain `CONSTANT name = value` lines work for strings/ints)."""
@@ -76,6 +76,8 @@ def tlc(sdir, module, cfg, workers=1, timeout=1800, heap="4g", extra=None, const
     jopts = ["-XX:+UseParallelGC", "-Xmx" + heap, "-Xss512m"]
     if depthfirst:
         jopts.append("-Dtlc2.tool.queue.IStateQueue=StateDeque")
+    if jvm:
+        jopts += list(jvm)
     cmd = ["java"] + jopts + ["-cp", TLA_CP, "tlc2.TLC", "-metadir", os.path.join(wd, "md"), "-workers", str(workers),
                               "-config", os.path.basename(cfg)]
     if extra:
